@@ -223,6 +223,11 @@ pub fn subjects() -> Vec<Subject> {
         // a state with four matches (match lists are linked lists in the
         // noncontiguous NFA and are walked by index in overlapping searches)
         Subject { name: "std-nnfa-suffixes", pats: vec![b("abcd"), b("bcd"), b("cd"), b("d")], mk: Kind::Std, kind: NoncontiguousNFA, ci: false },
+        // a pattern whose proper prefix is followed, in the near-miss
+        // haystack, by another pattern (anchored and unanchored searches pass
+        // through the same non-start state and leave it differently)
+        Subject { name: "std-cnfa-abc-d", pats: vec![b("abc"), b("d")], mk: Kind::Std, kind: ContiguousNFA, ci: false },
+        Subject { name: "lf-nnfa-abc-d", pats: vec![b("abcx"), b("bc"), b("d")], mk: Kind::LF, kind: NoncontiguousNFA, ci: false },
     ]
 }
 
@@ -259,7 +264,7 @@ impl Subject {
     }
 }
 
-pub const NOPS: usize = 19;
+pub const NOPS: usize = 21;
 static CUR_OP: Mutex<String> = Mutex::new(String::new());
 
 pub fn op_name(op: usize) -> &'static str {
@@ -268,6 +273,7 @@ pub fn op_name(op: usize) -> &'static str {
         "overlapping stepwise(dense)", "stream_find_iter(sparse)", "replace_all_bytes(dense)", "replace_all_bytes(long)",
         "earliest find(sparse)", "anchored find_iter(dense)", "find(span of long)", "overlapping_iter(sparse)", "clone().find_iter(sparse)",
         "find_iter(5000 bytes)", "stream_find_iter(70000 bytes)", "find_iter(160 adjacent matches)", "earliest find(long)",
+        "anchored find(near miss)", "find_iter(near miss)",
     ][op]
 }
 
@@ -354,6 +360,22 @@ pub fn run_op(ac: &AhoCorasick, s: &Subject, op: usize) -> String {
                 format!("{} matches", n)
             }
             18 => format!("{:?}", ac.try_find(Input::new(&long).earliest(true)).map(|o| o.map(fm)).map_err(|e| e.to_string())),
+            19 | 20 => {
+                // near miss: the first pattern without its last byte, then
+                // the last pattern (an anchored search dies inside the first
+                // pattern, an unanchored one recovers through failure links:
+                // the two modes must not learn from each other)
+                let p0 = &s.pats[0];
+                let mut near = p0[..p0.len().saturating_sub(1)].to_vec();
+                near.extend_from_slice(&s.pats[s.pats.len() - 1]);
+                near.extend_from_slice(b"-");
+                near.extend_from_slice(p0);
+                if op == 19 {
+                    format!("{:?}", ac.try_find(Input::new(&near).anchored(Anchored::Yes)).map(|o| o.map(fm)).map_err(|e| e.to_string()))
+                } else {
+                    format!("{:?}", ac.find_iter(&near).take(99).map(fm).collect::<Vec<_>>())
+                }
+            }
             _ => "?".into(),
         }
     }));
@@ -968,8 +990,8 @@ pub fn free_running(rounds: usize, light: bool, nthreads: usize, mut progress: i
     let mut bad = vec![];
     for (si, s) in subs.iter().enumerate() {
         progress(s.name);
-        let fresh = s.build();
-        let expected: Vec<String> = (0..NOPS).map(|op| if ops.contains(&op) { run_op(&fresh, s, op) } else { String::new() }).collect();
+        // every expectation on its own never-used searcher
+        let expected: Vec<String> = (0..NOPS).map(|op| if ops.contains(&op) { run_op(&s.build(), s, op) } else { String::new() }).collect();
         let expected = Arc::new(expected);
         let shared = Arc::new(s.build());
         let cloned = Arc::new((*shared).clone());
